@@ -333,10 +333,14 @@ def run_engine(prop, engine, tier, seed, runs, n_workers, wall, scratch):
         indices = [FIXED_BASE + j for j in range(n_fixed)] + indices
     t0 = time.time()
     # determinism probe: same seeds, different worker count, different hash seed, fresh interpreters
-    det_idx = indices[: min(2, n_fixed)] + indices[n_fixed : n_fixed + DETERMINISM_SAMPLE]
+    det_idx = indices[: min(2, n_fixed)] + indices[n_fixed : n_fixed + getattr(eng, "DETERMINISM_SAMPLE", DETERMINISM_SAMPLE)]
     main = spawn_workers(prop, engine, tier, seed, indices, n_workers, wall, scratch, "main", events_for=det_idx)
+    half = (len(det_idx) + 1) // 2
     det = spawn_workers(
-        prop, engine, tier, seed, det_idx, 2, wall, scratch, "det", hashseed=12345, keep_events=True,
+        prop, engine, tier, seed, det_idx[:half], 1, wall, scratch, "det", hashseed=12345, keep_events=True,
+        extra_env=getattr(eng, "DET_PROBE_ENV", None),
+    ) + spawn_workers(
+        prop, engine, tier, seed, det_idx[half:], 1, wall, scratch, "det2", hashseed=777, keep_events=True,
         extra_env=getattr(eng, "DET_PROBE_ENV", None),
     )
     lines, errors = collect(main, wall)
